@@ -17,7 +17,7 @@ MODULES = sorted(MODULE_PATH)
 
 HARNESSES = []
 
-STD_STUBS = "std-lite stubs replace core::str::validations::run_utf8_validation / count_chars / memchr / simd_contains (naive byte loops, validated natively against std)"
+STD_STUBS = "std-lite stubs replace core::str::validations::run_utf8_validation / count_chars / memchr / simd_contains / str::trim (naive byte loops, exact, validated natively against std by bin/check --selftest)"
 FMT_STUB = "alloc::fmt::format is stubbed to return an empty String (text of error messages is not the subject)"
 
 
@@ -46,13 +46,13 @@ for _n, _ev in (("c07_step_scalar_empty", "plain empty scalar"), ("c07_step_scal
                 ("c07_step_seq_start", "SequenceStart"), ("c07_step_map_start", "MappingStart")):
     H(_n, "budget", ["C07", "C01"], expect_s=60, timeout=900, functions=BUDGET_FUNCS, claim=NODES_CLAIM + _ev, bound=NODES_BOUND, assumes=BUDGET_INV)
 BB_NOTE = ["black-box: uses only BudgetEnforcer::new / observe / finalize, concrete event list, all limits free; ahash::RandomState::new stubbed to fixed keys (OS randomness unsupported)"]
-BB_STREAMS = {"keyseq": "? [a] : << / other: x (12 events, AllContent)", "keymap": "? {k: x} : v / <<: {x: x} (16 events, AllContent)",
-              "anchors": "a: &1 [x, &2 x] / b: *1 / \"<<\": *1 (15 events, AllContent)", "twodocs": "two documents re-using anchor id 1 (14 events, PerDocument)",
-              "abandoned": "document abandoned with two containers open, boundary, full document (15 events, PerDocument)", "allcontent": "two documents (10 events, AllContent)"}
+BB_STREAMS = {"keyseq": "{? [a] : <<, other: x} (8 events, AllContent)", "keymap": "{? {k: x} : v, <<: {}} (10 events, AllContent)",
+              "anchors": "{a: &1 [&2 x], b: *1, \"<<\": *1} (11 events, AllContent)", "twodocs": "two documents re-using anchor id 1 (10 events, PerDocument)",
+              "abandoned": "document abandoned with two containers open, boundary, full document (10 events, PerDocument)", "allcontent": "two documents (10 events, AllContent)"}
 for _n in ("keyseq_within", "keyseq_mergelimit", "keymap_within", "keymap_mergelimit", "anchors_within", "anchors_anchorlimit", "anchors_aliaslimit",
            "twodocs_within", "twodocs_eventlimit", "twodocs_anchorlimit", "abandoned_within", "abandoned_depthlimit", "abandoned_nodelimit", "allcontent_within"):
     _stream, _mode = _n.split("_")
-    H("c07_bb_" + _n, "budget", ["C07"], expect_s=90, timeout=900, blackbox=True, functions=["budget::BudgetEnforcer::new", "budget::BudgetEnforcer::observe", "budget::BudgetEnforcer::finalize"],
+    H("c07_bb_" + _n, "budget", ["C07"], expect_s=90, timeout=900, blackbox=True, mem_gb=20, weight=2, functions=["budget::BudgetEnforcer::new", "budget::BudgetEnforcer::observe", "budget::BudgetEnforcer::finalize"],
       claim=("scenario, all limits free but admitting the stream: no event is rejected, the final report equals an independent count (events, nodes, depth, aliases, anchors, scalar bytes, merge keys with key/value position tracking), ratio verdict = documented inequality"
              if _mode == "within" else "scenario, exactly one limit free (" + _mode + "): observe() fails at exactly the event at which the independent count first exceeds it"),
       bound="concrete event list: " + BB_STREAMS[_stream], assumes=BB_NOTE)
@@ -140,7 +140,7 @@ for _n, _N, _tier in (("c06_bool_3", 3, "quick"), ("c06_bool_4", 4, "quick"), ("
     H(_n, "parse_scalars", ["C06", "C01"], tier=_tier, expect_s=60 * (_N - 2), functions=["parse_scalars::parse_yaml11_bool"],
       claim="Ok(b) iff the trimmed token is, case-insensitively, one of true/yes/y/on (b=true) or false/no/n/off (b=false)",
       bound=ASCII_IN + ", N=%d" % _N, assumes=[STD_STUBS, FMT_STUB])
-H("c06_null_4", "parse_scalars", ["C06", "C05"], expect_s=60, functions=["parse_scalars::scalar_is_nullish", "parse_scalars::scalar_is_nullish_for_option"],
+H("c06_null_4", "parse_scalars", ["C06"], expect_s=60, functions=["parse_scalars::scalar_is_nullish", "parse_scalars::scalar_is_nullish_for_option"],
   claim="null-like tables: plain empty/~/null(any case) are null; for Option additionally an empty unquoted scalar; a quoted scalar is never null",
   bound="every ASCII string of length 0..4 x all five scalar styles", assumes=[STD_STUBS])
 H("c06_leading_zero_4", "parse_scalars", ["C06"], expect_s=60, functions=["parse_scalars::leading_zero_decimal"],
@@ -170,6 +170,30 @@ H("c10_next_step_cap_fault", "buffered_input", ["C10"], tier="thorough", expect_
   claim="cap and reader faults together: same post-conditions", bound="union of c10_next_step_fault and c10_next_step_cap", assumes=READ_ENV)
 
 # --------------------------------------------------------------------------------------------
+# C16 coordinates (src/location.rs)
+# --------------------------------------------------------------------------------------------
+H("c16_location_from_span", "location", ["C16", "C01"], expect_s=30, functions=["location::location_from_span", "location::Location::new", "location::Span accessors"],
+  claim="reported line, column, character offset/length and byte offset/length are exactly the parser's marks (column 1-based); byte info present iff both marks carry byte offsets that fit 32 bits; no arithmetic panic",
+  bound="all six mark coordinates free below 2^32-1, both optional byte offsets free 64-bit",
+  assumes=["parser contract: end mark not before start mark, byte offset >= character index", "default build (SpanIndex = u32); feature huge_documents is outside"])
+H("c16_locations_pair", "location", ["C16"], expect_s=30, functions=["location::Locations::same", "location::Locations::primary_location"],
+  claim="primary location is the use-site unless unknown, then the definition-site; `same` yields both equal", bound="all line/column values (u32)")
+
+# --------------------------------------------------------------------------------------------
+# C04 / C01 event-buffer kernels (src/de.rs)
+# --------------------------------------------------------------------------------------------
+for _n, _N, _tier, _exp in (("c04_skip_len_6", 6, "quick", 60), ("c04_skip_len_8", 8, "thorough", 600)):
+    H(_n, "de", ["C04", "C01"], tier=_tier, expect_s=_exp, timeout=max(900, 4 * _exp), functions=["de::skip_one_node_len"],
+      claim="for every event buffer and start index: a well-formed node (strict reference scanner) is skipped exactly; any returned length stays inside the buffer; no panic / index error on malformed buffers",
+      bound="all buffers of %d events over {scalar, seq start/end, map start/end, taken} x every start index" % _N)
+
+# base64 (src/base64.rs): one final quantum per concrete padding shape
+for _n, _shape, _tier, _exp in (("c06_base64_pad2", "XY== (2 symbolic characters)", "quick", 300), ("c06_base64_pad1", "XYZ= (3 symbolic characters)", "thorough", 900), ("c06_base64_pad0", "XYZW (4 symbolic characters)", "thorough", 1200)):
+    H(_n, "base64", ["C06", "C01"], tier=_tier, expect_s=_exp, timeout=4 * _exp, mem_gb=16, functions=["base64::decode_base64_yaml", "base64::decode_val"],
+      claim="Ok(bytes) iff the quantum is canonical RFC 4648 base64 (alphabet, padding shape, zero trailing bits), and then bytes are exact",
+      bound="one 4-character quantum, shape " + _shape + ", every non-whitespace ASCII value per symbolic character; interior whitespace and multi-quantum inputs are outside this harness", assumes=[STD_STUBS])
+
+# --------------------------------------------------------------------------------------------
 # C12 plain-safety predicates (src/ser_quoting.rs)
 # --------------------------------------------------------------------------------------------
 E2E = "every oracle failure is conjoined with an end-to-end confirmation that is stubbed to `true` for the solver and runs the real to_string -> from_str round trip in the native replay (an over-strict oracle therefore yields 'not reproduced', never a VIOLATION)"
@@ -182,6 +206,11 @@ for _n, _N, _tier, _exp in (("c12_value_plain_1", 1, "quick", 60), ("c12_value_p
     H(_n, "ser_quoting", ["C12"], tier=_tier, expect_s=_exp, timeout=max(900, 4 * _exp), mem_gb=16, functions=["ser_quoting::is_plain_value_safe", "ser_quoting::is_ambiguous_value", "ser_quoting::is_ambiguous"],
       claim="is_plain_value_safe(s, yaml_12, in_flow) implies that s written plain in value position (block or flow) reads back as the same string (same conditions as for keys, plus flow indicators in flow context and YAML 1.1 booleans unless yaml_12)",
       bound="all valid-UTF-8 strings of exactly %d bytes x yaml_12 x in_flow" % _N, assumes=[STD_STUBS, FMT_STUB, NUMLOOK, E2E])
+
+for _n, _N, _tier, _exp in (("c12_wordlike_4", 4, "quick", 300), ("c12_wordlike_5", 5, "thorough", 900)):
+    H(_n, "ser_quoting", ["C12"], tier=_tier, expect_s=_exp, timeout=max(1200, 4 * _exp), mem_gb=16, functions=["ser_quoting::is_plain_safe", "ser_quoting::is_plain_value_safe", "ser_quoting::is_ambiguous", "ser_quoting::is_ambiguous_value"],
+      claim="word-like tokens (look-alikes of null / true / false / yes / no / on / off / .inf / .nan in EVERY letter case) are never emitted plain when the deserializer's own tables would read them as null, bool or float",
+      bound="all %d-byte tokens over ASCII letters and ~ . + -, key and block-value position, both yaml_12" % _N, assumes=[STD_STUBS, FMT_STUB, NUMLOOK, E2E])
 
 PROP_NOTES = {
     "C07": "C07 is decided at the level of the budget automaton: one inductive step from an arbitrary state satisfying the "
